@@ -21,12 +21,16 @@ E == INSTANCE Emit
 
 Tr == ndJsonDeserialize(IOEnv.TRACE)
 
-VARIABLES l, buf, root, maxd, pr, c, mode, stk, on, allOk, prevErr, d0, bad, nA, nS
-vars == <<l, buf, root, maxd, pr, c, mode, stk, on, allOk, prevErr, d0, bad, nA, nS>>
+VARIABLES l, buf, root, maxd, pr, c, mode, stk, on, allOk, prevErr, d0, bad, nA, nS, hist, full
+vars == <<l, buf, root, maxd, pr, c, mode, stk, on, allOk, prevErr, d0, bad, nA, nS, hist, full>>
+\* full = <<f, lastNextFalse>>: the calls so far are a prefix of a FULL traversal (every container
+\* entered, left only after next said FALSE): then a navigation disagreement is in C03's scope too
+\* hist: the current traversal contained a lookup ("L") / a get_raw or to_writer ("R") - decides
+\* in whose scope a later disagreement lies (same rule as harness/replay_parser.c attribute())
 
 NoTree == [ok |-> FALSE, kind |-> "none", pos |-> 0]
 Init == /\ l = 1 /\ buf = <<>> /\ root = "O" /\ maxd = 1 /\ pr = NoTree /\ c = C!Fresh /\ mode = "U"
-        /\ stk = <<>> /\ on = 0 /\ allOk = TRUE /\ prevErr = 0 /\ d0 = 0 /\ bad = "" /\ nA = 0 /\ nS = 0
+        /\ stk = <<>> /\ on = 0 /\ allOk = TRUE /\ prevErr = 0 /\ d0 = 0 /\ bad = "" /\ nA = 0 /\ nS = 0 /\ hist = "" /\ full = <<TRUE, FALSE>>
 
 Ev == Tr[l]
 Msg(p, what) == p \o ": line " \o ToString(l) \o ": " \o what
@@ -49,21 +53,23 @@ Monitor(ev) ==
        THEN Msg("C16", "more token callbacks than bytes moved over")
   ELSE ""
 
+\* the set of properties in whose scope a Layer-A mismatch of this call lies
+PropOf(op) == CASE op \in {"f", "fe"} -> "C07" [] op \in {"raw", "tw"} -> "C11"
+                [] hist = "L" -> "C07" [] hist = "R" -> "C06,C11" [] OTHER -> IF full[1] THEN "C03,C06" ELSE "C06"
+ValProp(p) == IF p = "C07" THEN "C03,C07" ELSE "C03"
+
 \* ---- Layer A comparison of a hit (next / lookup returned TRUE) -------------------
 HitMsg(ev, hit, inObj, p) ==
   LET nd == hit.node IN
   IF ev.t # E!TypeCode(nd.t) THEN Msg(p, "get_type differs from the element's type")
-  ELSE IF inObj /\ ev.nm # <<hit.nOff, hit.nLen>> THEN Msg(IF p = "C06" THEN "C03" ELSE p, "name span differs")
-  ELSE LET pv == IF p = "C06" THEN "C03" ELSE p IN
+  ELSE IF inObj /\ ev.nm # <<hit.nOff, hit.nLen>> THEN Msg(ValProp(p), "name span differs")
+  ELSE LET pv == ValProp(p) IN
        IF (IF nd.t = "integer" THEN ev.iv # F!SignExt8(F!Sub(buf, nd.pOff, nd.pLen)) ELSE ev.iv # Zero8) THEN Msg(pv, "get_integer differs / not neutral")
        ELSE IF (IF nd.t = "double" THEN ev.dv # F!Sub(buf, nd.pOff, 8) ELSE ev.dv # Zero8) THEN Msg(pv, "get_double differs / not neutral")
        ELSE IF (IF nd.t = "boolean" THEN ev.bv # (IF F!B(buf, nd.off) = 68 THEN 1 ELSE 0) ELSE ev.bv # 0) THEN Msg(pv, "get_boolean differs / not neutral")
        ELSE IF (IF nd.t = "string" THEN ev.sv # <<nd.pOff, nd.pLen>> ELSE ev.sv # <<>>) THEN Msg(pv, "string span differs / not neutral")
        ELSE IF (IF nd.t = "bytes" THEN ev.yv # <<nd.pOff, nd.pLen>> ELSE ev.yv # <<>>) THEN Msg(pv, "bytes span differs / not neutral")
        ELSE ""
-
-\* property a Layer-A mismatch of this op belongs to
-PropOf(op) == CASE op \in {"f", "fe"} -> "C07" [] op \in {"raw", "tw"} -> "C11" [] OTHER -> "C06"
 
 \* ---- one event -------------------------------------------------------------------
 InitEv ==
@@ -72,7 +78,7 @@ InitEv ==
      /\ buf' = Ev.buf /\ root' = Ev.root /\ maxd' = Ev.maxd /\ pr' = p /\ c' = C!Fresh
      /\ stk' = <<>> /\ on' = 0 /\ allOk' = (Ev.ret = 1) /\ prevErr' = Ev.err /\ d0' = IF Ev.root = "A" THEN 1 ELSE 0
      /\ mode' = IF Ev.ret = 0 THEN "U" ELSE IF p.ok THEN "A" ELSE "S"
-     /\ nA' = nA + (IF p.ok THEN 1 ELSE 0) /\ nS' = nS + (IF p.ok THEN 0 ELSE 1)
+     /\ nA' = nA + (IF p.ok THEN 1 ELSE 0) /\ nS' = nS + (IF p.ok THEN 0 ELSE 1) /\ hist' = "" /\ full' = <<TRUE, FALSE>>
      /\ IF p.ok /\ Ev.ret = 0 THEN Fail("C02", "init rejects a well-formed document")
         ELSE bad' = bad
 
@@ -84,7 +90,7 @@ AgainEv ==
   /\ IF Ev.e = "v" /\ (Ev.ret = 1) # pr.ok THEN Fail("C02", "verify's verdict differs from Layer A well-formedness")
      ELSE IF Ev.ret = 1 /\ (Ev.err2 # 0 \/ Ev.used # 0) THEN Fail("C12", "not at the start / error set after a successful verify or reset")
      ELSE bad' = bad
-  /\ UNCHANGED <<buf, root, maxd, pr, d0, nA, nS>>
+  /\ hist' = "" /\ full' = <<TRUE, FALSE>> /\ UNCHANGED <<buf, root, maxd, pr, d0, nA, nS>>
 
 \* protocol judged on the recorded answers (mode S)
 TopS == stk[Len(stk)]
@@ -106,6 +112,11 @@ CallEv ==
          tree == pr.node
      IN
      /\ prevErr' = ev.err2
+     /\ hist' = IF op \in {"f", "fe"} THEN "L" ELSE IF op \in {"raw", "tw"} /\ hist = "" THEN "R" ELSE hist
+     /\ full' = <<full[1] /\ ~(op \in {"f", "fe", "raw", "tw", "gn"})
+                           /\ ~(op \in {"lo", "la"} /\ ~full[2])
+                           /\ ~(op \in {"n", "ne"} /\ mode = "A" /\ C!InFrame(c) /\ C!Top(c).on /\ C!IsCont(C!OnKid(c).node.t)),
+                  op \in {"n", "ne"} /\ ev.ret = 0>>
      /\ UNCHANGED <<buf, root, maxd, pr, d0, nA, nS>>
      /\ IF mon # "" THEN bad' = mon /\ UNCHANGED <<c, mode, stk, on, allOk>>
         ELSE IF mode = "A" THEN
